@@ -241,5 +241,8 @@ def run(check, ctx):
     # EdDSA verification ends in a point comparison: the native point layer on the cases of the group law
     from . import c_ed
     c_ed.ed_tables(check, ctx, groups=("points",))
+    # the native validator of NIST-curve public points (every pair with a zero coordinate, off-curve pairs)
+    from . import c_ec
+    c_ec.newpoint_tables(check, ctx)
     check.undecided.append("the verification equations on the real groups for all operands (decided on complete toy groups and, natively, on case tables); "
                            "EdDSA sign/verify composition values; the RFC 6979 HMAC_DRBG loop")
